@@ -116,8 +116,13 @@ package bgp
 //@ func (*BGPHeader).DecodeFromBytes
 //@   modifies msg.*
 //@   ensures err == nil ==> msg.Len >= 19 && len(data) >= 19
+// from C07 "every ... NOTIFICATION carries the RFC 4271 code and subcode": a KEEPALIVE is the 19-octet header and
+// nothing else (RFC 4271 4.4, 6.1: any other length is a Bad Message Length header error)
 //@ func (*BGPKeepAlive).DecodeFromBytes
+//@   tag C05 C07
 //@   modifies nothing
+//@   ensures len(data) != 0 ==> errIs(result, BGP_ERROR_MESSAGE_HEADER_ERROR, BGP_ERROR_SUB_BAD_MESSAGE_LENGTH)
+//@   ensures len(data) == 0 ==> result == nil
 //@ func (*BGPNotification).DecodeFromBytes
 //@   modifies msg.*
 //@ func (*BGPRouteRefresh).DecodeFromBytes
@@ -911,6 +916,20 @@ func verifLenIsHeaderPlusLength(p *PathAttribute) bool {
 //@   requires msg != nil
 //@   claims at-call
 //@   at-call msg.Header.Serialize( requires int(msg.Header.Len) == BGP_HEADER_LENGTH + len(b) && called(IsExtendedMessageSerialization)
+
+// from C08 "what is sent in the OPEN reflects the configuration": the length octets of the OPEN and of its
+// Capabilities parameter say how many octets follow - more than 255 cannot be said (without RFC 9072) and must not
+// be sent truncated
+//@ props C08 C04
+//@ func (*OptionParameterCapability).Serialize
+//@   requires o != nil
+//@   claims at-return inv-init inv-keep
+//@   loop 0 invariant len(buf) >= 2
+//@   at-return requires ret1 == nil ==> len(ret0) >= 2 && int(ret0[1]) == len(ret0) - 2
+//@ func (*BGPOpen).Serialize
+//@   requires msg != nil
+//@   claims at-return
+//@   at-return requires ret1 == nil ==> len(ret0) >= 10 && int(ret0[9]) == len(ret0) - 10
 
 // EVPN I-PMSI route (type 9): what the encoder writes is what Len() announces - RD (8) and Ethernet tag (4), then the
 // extended community directly after them - and the decoder knows the route type its own encoder emits
